@@ -1652,7 +1652,7 @@ impl Element {
         let element = self.0.read();
         let element_name = element.elemname.to_str();
 
-        if let Some(comment) = &self.0.read().comment {
+        if let Some(comment) = &element.comment {
             // put the comment on a separate line
             if !inline {
                 Self::serialize_newline_indent(outstring, indent);
@@ -1670,18 +1670,19 @@ impl Element {
         if !element.content.is_empty() {
             outstring.push('<');
             outstring.push_str(element_name);
-            self.serialize_attributes(outstring);
+            Self::serialize_attributes(&element.attributes, outstring);
             outstring.push('>');
 
-            match self.content_type() {
-                ContentType::Elements => {
+            // note: all data is taken from the lock guard that is already held; locking self again here
+            // could deadlock if another thread has requested the write lock in the meantime
+            match element.elemtype.content_mode() {
+                ContentMode::Sequence | ContentMode::Choice | ContentMode::Bag => {
                     // serialize each sub-element
-                    for subelem in self.sub_elements() {
-                        if for_file.is_none()
-                            || subelem.0.read().file_membership.is_empty()
-                            || subelem.0.read().file_membership.contains(for_file.as_ref().unwrap())
-                        {
-                            subelem.serialize_internal(outstring, indent + 1, false, for_file);
+                    for item in &element.content {
+                        if let ElementContent::Element(subelem) = item {
+                            if subelem.is_in_file(for_file) {
+                                subelem.serialize_internal(outstring, indent + 1, false, for_file);
+                            }
                         }
                     }
                     // put the closing tag on a new line and indent it
@@ -1690,7 +1691,7 @@ impl Element {
                     outstring.push_str(element_name);
                     outstring.push('>');
                 }
-                ContentType::CharacterData => {
+                ContentMode::Characters => {
                     // write the character data on the same line as the opening tag
                     if let Some(ElementContent::CharacterData(chardata)) = element.content.first() {
                         chardata.serialize_internal(outstring);
@@ -1701,14 +1702,11 @@ impl Element {
                     outstring.push_str(element_name);
                     outstring.push('>');
                 }
-                ContentType::Mixed => {
-                    for item in self.content() {
+                ContentMode::Mixed => {
+                    for item in &element.content {
                         match item {
                             ElementContent::Element(subelem) => {
-                                if for_file.is_none()
-                                    || subelem.0.read().file_membership.is_empty()
-                                    || subelem.0.read().file_membership.contains(for_file.as_ref().unwrap())
-                                {
+                                if subelem.is_in_file(for_file) {
                                     subelem.serialize_internal(outstring, indent + 1, true, for_file);
                                 }
                             }
@@ -1726,9 +1724,19 @@ impl Element {
         } else {
             outstring.push('<');
             outstring.push_str(element_name);
-            self.serialize_attributes(outstring);
+            Self::serialize_attributes(&element.attributes, outstring);
             outstring.push('/');
             outstring.push('>');
+        }
+    }
+
+    // should this element be serialized as part of the given file? (None: serialization is not restricted to a file)
+    fn is_in_file(&self, for_file: &Option<WeakArxmlFile>) -> bool {
+        if let Some(file) = for_file {
+            let element = self.0.read();
+            element.file_membership.is_empty() || element.file_membership.contains(file)
+        } else {
+            true
         }
     }
 
@@ -1739,16 +1747,13 @@ impl Element {
         }
     }
 
-    fn serialize_attributes(&self, outstring: &mut String) {
-        let element = self.0.read();
-        if !element.attributes.is_empty() {
-            for attribute in &element.attributes {
-                outstring.push(' ');
-                outstring.push_str(attribute.attrname.to_str());
-                outstring.push_str("=\"");
-                attribute.content.serialize_internal(outstring);
-                outstring.push('"');
-            }
+    fn serialize_attributes(attributes: &[Attribute], outstring: &mut String) {
+        for attribute in attributes {
+            outstring.push(' ');
+            outstring.push_str(attribute.attrname.to_str());
+            outstring.push_str("=\"");
+            attribute.content.serialize_internal(outstring);
+            outstring.push('"');
         }
     }
 
